@@ -1,6 +1,7 @@
 import PercevalModel.Proto
 import PercevalModel.Model.C10
 import PercevalModel.Model.C10Hist
+import PercevalModel.Model.C10HistR
 
 open Lean PM PM.Proto PM.C10
 
@@ -178,14 +179,32 @@ def locOf : String → Except String Loc
   | "INPUT" => .ok .input | "OUTPUT" => .ok .output | "IN_OUT" => .ok .inout
   | s => .error s!"bad location {s}"
 
-def hopOf (j : Json) : Except String HOp := do
+def optNatOf (j : Json) (k : String) : Except String (Option Nat) :=
+  match j.getObjVal? k with
+  | .ok .null => pure none
+  | .ok x => some <$> x.getNat?
+  | .error _ => throw s!"missing {k}"
+
+/-- one call of a life.  An `add` names its right-hand side either by its observed public state (`"right"`) or by the
+life that built it (`"right_hist": {"m": n | null, "ops": [...]}`): the model then runs that life itself (repaired
+prelude) and reads the added processor through `Exp.side` (`addHist`); a nested life that fails is a protocol error -/
+partial def hopOf (j : Json) : Except String HOp := do
   match ← strOf j "op" with
   | "herald" => return .herald (← natOf j "mode") (← natOf j "exp") (← optStr (← j.getObjVal? "name"))
   | "port" => return .port (← natOf j "mode") (← natOf j "size") (← strOf j "name") (← locOf (← strOf j "loc"))
   | "rmport" => return .rmport (← natOf j "mode") (← locOf (← strOf j "loc"))
   | "det" => return .det (← natOf j "mode") (← strOf j "name")
   | "ps" => return .setps (← psOf (← j.getObjVal? "ps"))
-  | "add" => return .add (← sideOf (← j.getObjVal? "right")) (← rawMapOf (← j.getObjVal? "map")) (← boolOf j "keep_port")
+  | "add" =>
+    let raw ← rawMapOf (← j.getObjVal? "map")
+    let keep ← boolOf j "keep_port"
+    match j.getObjVal? "right_hist" with
+    | .ok rh =>
+      let ops ← (← arrOf rh "ops").toList.mapM hopOf
+      match history true (← optNatOf rh "m") ops with
+      | .ok e' => return .add e'.side raw keep
+      | .error x => throw s!"nested life fails with {x.name}"
+    | .error _ => return .add (← sideOf (← j.getObjVal? "right")) raw keep
   | s => throw s!"bad history op {s}"
 
 def mtStr : MT → String
@@ -198,7 +217,8 @@ def expJson (e : Exp) : Json :=
     ("dets", .arr (e.dets.map fun d => match d with | none => Json.null | some s => .str s).toArray),
     ("inp", .arr (e.inp.map portJson).toArray), ("outp", .arr (e.outp.map portJson).toArray),
     ("in_names", optNames (portNames e.cs e.inp)), ("out_names", optNames (portNames e.cs e.outp)),
-    ("ps", match e.ps with | none => .null | some p => psJson p)]
+    ("ps", match e.ps with | none => .null | some p => psJson p),
+    ("right_wf", .bool (rightWFb e.side))]
 
 /-- `{"op": "hist", "fix_m0": b, "m": n | null, "ops": [...]}` -> the state after the construction and after every
 call, up to the first exception (`{"err": class}` is then the last entry) -/
@@ -220,7 +240,8 @@ def handleHist (j : Json) : Except String Json := do
         | .error x => acc.push (errJson x.name)
         | .ok e' => go e' rest (acc.push (expJson e'))
     return Json.mkObj [("trace", .arr (go e0 ops #[expJson e0])),
-                       ("no_herald_removal", .bool (noHeraldRemoval fx e0 ops))]
+                       ("no_herald_removal", .bool (noHeraldRemoval fx e0 ops)),
+                       ("keeps_herald_out", .bool (keepsHeraldOut fx e0 ops))]
 
 def handle (j : Json) : Json :=
   let r : Except String Json :=
